@@ -179,6 +179,20 @@ def subscribe(obs, snap):
     return snap
 
 
+def subscribe2(obs, out, what, same=None):
+    """Subscribe the SAME observable object twice (what ops.repeat / retry or a second observer do): a cold
+    pipeline owes every subscription the same events.  Returns the first Snap; a difference is a failure."""
+    a = subscribe(obs, Snap())
+    b = subscribe(obs, Snap())
+    out.observed['second_subscriptions_of_one_observable'] += 1
+    eq = same or (lambda x, y: x == y and [type(i) for i in x] == [type(i) for i in y])
+    if a.done != b.done or (a.err is None) != (b.err is None) or not eq(a.out, b.out):
+        def head(sn):
+            return {'done': sn.done, 'error': repr(sn.err), 'n': len(sn.out), 'head': [repr(x)[:60] for x in sn.out[:6]]}
+        out.fail('second-subscription-of-the-same-observable-differs', what=what, first=head(a), second=head(b))
+    return a
+
+
 # ---------------------------------------------------------------------------
 # outcome of evaluating one case
 
